@@ -197,6 +197,14 @@ class Projector:
             if isinstance(r, gtirb.Block):
                 refs.setdefault(r.uuid, []).append(s)
 
+        def cfi_rec(d):
+            name, ops, u = d
+            sym = symnames.get(u, "" if u == _auxdata.NULL_UUID else "?")
+            return {"op": name[5:] if name.startswith(".cfi_") else name,
+                    "args": [int(o) for o in ops if isinstance(o, int)][:8],
+                    "sym": base_name(sym) if sym not in ("", "?") else sym,
+                    "big": any(isinstance(o, int) and abs(o) >= 2**31 for o in ops)}
+
         def cfi_str(d):
             name, ops, u = d
             sym = symnames.get(u, "" if u == _auxdata.NULL_UUID else "?stale")
@@ -260,7 +268,7 @@ class Projector:
                         ann.append({"d": disp, "t": tname, "v": _val(v)})
                 ann.sort(key=lambda a: (a["d"], a["t"]))
                 cf = [
-                    {"d": disp, "v": [cfi_str(d) for d in v]}
+                    {"d": disp, "v": [cfi_str(d) for d in v], "ds": [cfi_rec(d) for d in v]}
                     for disp, v, _ in sorted(cfi.get(b.uuid, []), key=lambda t: t[0])
                 ]
                 ss, es = [], []
